@@ -455,8 +455,88 @@ def nexus_command_cases(rng, tier):
         yield Case("parse", ["nexus", popts_default("nexus", 0), G.hx(txt.encode())], True, "nexus:commands")
 
 
+def line_level_cases(rng, tier):
+    """Clustal, Stockholm and Phylip files assembled line by line: blocks whose rows come in the right / another order, with
+    one row more or less, repeated or renamed; cumulative counts right or wrong; conservation lines, blank lines, markup and
+    terminators present, repeated or missing; header counts that fit or not; things after the end"""
+    n = 300 if tier == "quick" else 4000
+    nl = lambda: rng.choice(["\n", "\n", "\n", "\r\n", "\n\n"])
+    for _ in range(n):
+        nrow = rng.randint(1, 4)
+        nblock = rng.randint(1, 3)
+        w = rng.randint(1, 5)
+        names = ["t%d" % i for i in range(nrow)]
+        seqs = {nm: "".join(rng.choice("ACGT-") for _ in range(w * nblock)) for nm in names}
+
+        def block_rows(b, with_counts=False):
+            rows = list(names)
+            k = rng.random()
+            if k < 0.08 and len(rows) > 1:
+                rows = rows[:-1]                      # a row missing
+            elif k < 0.16:
+                rows = rows + [rng.choice(rows + ["zz"])]   # a row more (repeated or unknown)
+            elif k < 0.24:
+                rng.shuffle(rows)
+            out = []
+            for nm in rows:
+                chunk = seqs.get(nm, "A" * (w * nblock))[b * w:(b + 1) * w]
+                if rng.random() < 0.05:
+                    chunk = chunk[:-1] or "A"
+                cnt = ""
+                if with_counts:
+                    cnt = " %d" % (len(seqs.get(nm, "")[: (b + 1) * w].replace("-", "")) + rng.choice([0, 0, 0, 1]))
+                out.append((nm, chunk, cnt))
+            return out
+        # --- Clustal
+        wc = rng.random() < 0.4
+        txt = rng.choice(["CLUSTAL W (1.82) multiple sequence alignment", "CLUSTAL W", "CLUSTAL", "CLUSTAL O(1.2.4)"]) + nl() + nl()
+        for b in range(nblock):
+            for nm, ch, cnt in block_rows(b, wc):
+                txt += "%s%s%s%s" % (nm, rng.choice(["  ", " ", "      "]), ch, cnt) + nl()
+            if rng.random() < 0.8:
+                txt += " " * 4 + "".join(rng.choice(" *:.") for _ in range(w)) + nl()
+            if rng.random() < 0.85 or b == nblock - 1:
+                txt += nl()
+        yield Case("parse", ["clustal", popts_default("clustal", 0), G.hx(txt.encode())], True, "clustal:lines")
+        # --- Stockholm
+        txt = rng.choice(["# STOCKHOLM 1.0", "# STOCKHOLM 1.0", "# stockholm 1.0", "#STOCKHOLM 1.0"]) + nl()
+        if rng.random() < 0.4:
+            txt += "#=GF ID x" + nl()
+        for b in range(nblock):
+            for nm, ch, _ in block_rows(b):
+                txt += "%s %s" % (nm, ch) + nl()
+                if rng.random() < 0.15:
+                    txt += "#=GR %s SS %s" % (nm, "." * len(ch)) + nl()
+            if rng.random() < 0.3:
+                txt += "#=GC cons " + "x" * w + nl()
+            if b < nblock - 1:
+                txt += nl()
+        txt += rng.choice(["//", "//", "//\n", "", "//\n//\n", "//\nt0 ACGT\n", "#=GF x"])
+        yield Case("parse", ["stockholm", popts_default("stockholm", 0), G.hx(txt.encode())], True, "stockholm:lines")
+        # --- Phylip (relaxed and strict): header counts that fit or not, later blocks without names
+        L = w * nblock
+        hn = rng.choice([nrow, nrow, nrow, nrow + 1, max(0, nrow - 1), 0])
+        hl = rng.choice([L, L, L, L + 1, max(0, L - 1), 0])
+        strict = rng.random() < 0.3
+        txt = rng.choice(["", " ", "   "]) + "%d%s%d" % (hn, rng.choice([" ", "  ", "\t"]), hl) + nl()
+        for b in range(nblock):
+            rows = block_rows(b)
+            for nm, ch, _ in rows:
+                if b == 0:
+                    txt += (nm.ljust(10) if strict else nm + rng.choice(["  ", " "])) + ch + nl()
+                else:
+                    txt += ch + nl()
+            if b < nblock - 1:
+                txt += nl()
+        if rng.random() < 0.15:
+            txt += rng.choice(["t0 ACGT\n", " 1 1\nx A\n", "ACGT\n"])
+        yield Case("parse", ["phylip", popts_default("phylip", 1 if strict else 0), G.hx(txt.encode())], True, "phylip:lines")
+
+
 def gen(rng, tier):
     for c in nexus_command_cases(rng, tier):
+        yield c
+    for c in line_level_cases(rng, tier):
         yield c
     thorough = tier != "quick"
     sd = seeds(rng)
